@@ -129,6 +129,29 @@ func runC06(c *Ctx) {
 			}
 			c.LockPairing(caller, stopLocker)
 		}
+		// sibling of the grain rule (C31): the runningState fence of a PID is lowered only after PostStop returned — a stop
+		// request arriving while PostStop runs still finds the actor "running" and queues on stopLocker instead of racing
+		df := c.NewFlow(doStop)
+		setState := c.FuncObj("actor", "PID.setState")
+		lower := func(n ast.Node) bool {
+			call, ok := n.(*ast.CallExpr)
+			if !ok || callee(df.Info, call) != setState || len(call.Args) != 2 {
+				return false
+			}
+			a0, ok0 := call.Args[0].(*ast.Ident)
+			a1, ok1 := call.Args[1].(*ast.Ident)
+			return ok0 && ok1 && a0.Name == "runningState" && a1.Name == "false"
+		}
+		early := ""
+		for _, a := range df.Find(lower) {
+			if a.Deferred {
+				continue
+			}
+			if w := df.search(searchSpec{avoid: df.CallTo(postStop), target: func(n ast.Node) bool { return n == a.N }}); w != nil {
+				early = c.P.Pos(a.N.Pos())
+			}
+		}
+		c.Check(early == "" && len(df.Find(lower)) > 0, "doStop/running-lowered-after-PostStop", "doStop lowers runningState only after PostStop returned (deferred cleanup)", c.P.Pos(doStop.Decl.Pos()), "runningState is cleared at "+early+" before PostStop runs")
 		// Shutdown: doStop only when runningState is set (tested under the lock)
 		f := c.NewFlow(shutdown)
 		running := f.EdgesWhere(func(cond ast.Expr) (bool, bool) {
